@@ -46,10 +46,10 @@ def _items():
             san_body = 'if x > 50 { 50 } else { x }'
             pred_body = '*x != 7'
         add('san_%s' % t,
-            'pub fn san_%s(x: %s) -> %s { %s }\n' % (t, t, t, san_body),
+            'pub const fn san_%s(x: %s) -> %s { %s }\n' % (t, t, t, san_body),
             'pub uninterp spec fn SPEC_SAN_%s(x: %s) -> %s;\n'
             '#[verifier::external_body]\n'
-            'pub fn san_%s(x: %s) -> (r: %s) ensures r == SPEC_SAN_%s(x) { unimplemented!() }\n'
+            'pub const fn san_%s(x: %s) -> (r: %s) ensures r == SPEC_SAN_%s(x) { unimplemented!() }\n'
             % (T, t, t, t, t, t, T))
         add('san2_%s' % t,
             'pub fn san2_%s(x: %s) -> %s { %s }\n' % (t, t, t, 'if x < (1 as %s) { 1 as %s } else { x }' % (t, t)),
@@ -65,10 +65,10 @@ def _items():
             % (T, t, t, t, t, t, T))
         add('ONE_%s' % T, 'pub const ONE_%s: %s = 1 as %s;\n' % (T, t, t), 'pub const ONE_%s: %s = 1 as %s;\n' % (T, t, t))
         add('pred_%s' % t,
-            'pub fn pred_%s(x: &%s) -> bool { %s }\n' % (t, t, pred_body),
+            'pub const fn pred_%s(x: &%s) -> bool { %s }\n' % (t, t, pred_body),
             'pub uninterp spec fn SPEC_PRED_%s(x: %s) -> bool;\n'
             '#[verifier::external_body]\n'
-            'pub fn pred_%s(x: &%s) -> (r: bool) ensures r == SPEC_PRED_%s(*x) { unimplemented!() }\n'
+            'pub const fn pred_%s(x: &%s) -> (r: bool) ensures r == SPEC_PRED_%s(*x) { unimplemented!() }\n'
             % (T, t, t, t, T))
         add('vfn_%s' % t,
             'pub fn vfn_%s(x: &%s) -> Result<(), MyErr> { if %s { Ok(()) } else { Err(MyErr::Bad) } }\n' % (t, t, pred_body),
